@@ -134,6 +134,20 @@ STYLES['optim'] = (
     'results must be identical for ANY sequence of calls (call every touched function twice with different arguments of the same shape, and with arrays modified in place between the '
     'calls, in your equivalence script).')
 
+STYLES['harden'] = (
+    'Apply 8 to 12 realistic, BEHAVIOUR-PRESERVING edits of the kind a maintainer makes in a robustness / API-consistency clean-up - always CORRECTLY and, above all, CONSISTENTLY ACROSS '
+    'FUNCTIONS: most edits should touch TWO cooperating sites (a helper and every one of its callers, a producer of a value and every consumer), each adapted so that the whole is '
+    'unchanged. Use for example: a private helper extracted from two functions that share a computation (normalisation over the class axis, the Hermitian transpose, the weighted '
+    'covariance, the trace normalisation) and called from both; a helper that returned `x.sum(axis, keepdims=True)` now returns the sum WITHOUT keepdims and every caller adds the unit '
+    'axis itself (or the reverse); a private keyword renamed in the helper and at all call sites; an internal convention moved from the callee to the caller (the callee used to conjugate / '
+    'transpose / clip / floor its argument, now each caller does it just before the call - or the reverse - never both, never neither); an internal array handed over in another layout '
+    '(class axis first instead of second) with producer and every consumer adapted; explicit input normalisation that changes nothing for valid inputs (np.asarray on arguments that '
+    'are already arrays, np.ascontiguousarray, `x = x[...]` views, `axis = axis % x.ndim`, `int(k)` on integers); guards that cannot trigger for valid inputs (asserts on shapes, '
+    'isinstance checks, `if x.size == 0` branches that return exactly what the general path returns); tolerances written as named module constants with the same value; a default '
+    'moved from the signature (`eps=1e-10`) to a `None` sentinel resolved to the same value in the body; a tuple return turned into a small namedtuple unpacked the same way by the '
+    'callers; `np.errstate` contexts around divisions that already are guarded; dtype handling that keeps the result dtype (np.result_type, astype(x.dtype, copy=False)). Keep every '
+    'normalisation, floor, copy that protects an argument, conjugation and guard that exists EXACTLY ONCE on every path; keep dtypes and shapes of all public results identical.')
+
 TEMPLATE = '''You are helping to evaluate a static-analysis based verification tool for the Python library fgnt/pb_bss (EM mixture models, beamformers, permutation alignment, masks, metrics). The tool must NOT raise alarms on code whose behaviour is unchanged. Your job is to act as a careful maintainer who REFACTORS code WITHOUT changing behaviour, so that we can test the tool for false alarms.
 
 Work ONLY inside your own scratch git worktree of the library: {wt} (package directory {wt}/pb_bss). Do NOT read or write anything under /verif or /repo. Do not commit. Never use `git stash` (it is shared between worktrees).
